@@ -6,6 +6,7 @@
 use std::io::{BufRead, Write};
 mod consts;
 mod prog;
+mod settable;
 mod streams;
 // the crate's own example, compiled from the current source: its StreamPID is the stream assembly of C04
 #[allow(dead_code, unused_imports)]
@@ -38,6 +39,7 @@ fn run_case(case: &[i64]) -> Vec<i64> {
         2 => consts::run(&case[1..]),
         3 => streams::run_comb_case(&case[1..]),
         4 => streams::run_strm_case(&case[1..]),
+        5 => settable::run_sett_case(&case[1..]),
         _ => vec![W_BAD],
     }));
     match r {
